@@ -91,6 +91,110 @@ def cases(seed, tier):
         yield core.Case(cid, [scn], {"pattern": pat, "xattr": use_x, "ticks": nticks})
 
 
+DECOY = {"s*r": "svcr", "q?z": "qaz", "w[1]": "w1", "app\\x2dhog.service": "appx2dhog.service"}
+
+
+def real_cases(seed, n):
+    """'its actions targeting that cgroup unless they name their own', observed on what a real kill plugin does: a ruleset-level
+    cgroup `wl/*` over cgroups whose names may contain glob metacharacters (systemd escapes '-' as \\x2d), each with a decoy
+    sibling that the name would match if it were read as a pattern; the kill action names no cgroup of its own"""
+    from vlib import killgen as KG
+    rng = random.Random(seed * 1000003 + 111)
+    for i in range(n):
+        plugin = rng.choice(KG.PLUGINS)
+        names = rng.sample(KG.NAMES, rng.randint(2, 5))
+        for nm in list(names):
+            if nm in DECOY and rng.random() < 0.7:
+                names.append(DECOY[nm])
+        cgs = {"/": W.root_cgroup(), "wl": W.cgroup(current=1 << 30)}
+        pids = KG.PidAlloc()
+        info = {}
+        for nm in names:
+            spec, mine = KG.gen_node(rng, pids, pidcounts=(1, 2, 3))
+            spec["files"]["memory.swap.current"] = "%d\n" % rng.randint(4096, 1 << 30)
+            cgs["wl/" + nm] = spec
+            info["wl/" + nm] = mine
+        args = {}
+        if plugin == "kill_by_pressure":
+            args["resource"] = "memory"
+        if plugin == "kill_by_swap_usage":
+            args["threshold"] = "1"
+        if rng.random() < 0.3:
+            args["recursive"] = "true"
+        nticks = rng.randint(2, 4)
+        ticks = []
+        for t in range(nticks):
+            ops = []
+            if t > 0 and plugin in ("kill_by_pg_scan", "kill_by_io_cost"):
+                for r in info:
+                    ops.append({"op": "write", "cg": r, "file": "memory.stat", "text": W.memstat({"pgscan": 1000 * (t + 1) + len(r)})})
+                    ops.append({"op": "write", "cg": r, "file": "io.stat", "text": KG.iostat_text(rng, t + 1)})
+            ticks.append({"step_ns": 10**9, "ops": ops})
+        cfg = {"rulesets": [{"name": "rc", "cgroup": "wl/*", "post_action_delay": "0", "detectors": [["g", W.det("d")]],
+                             "actions": [W.act("pre"), {"name": plugin, "args": args}, W.act("post")]}]}
+        cid = "C11r-%d-%d" % (seed, i)
+        scn = KG.base_scn(cid, cgs, cfg, ticks=ticks, kill={"default": "ok", "pids": {}})
+        yield core.Case(cid, [scn], {"real": True, "plugin": plugin, "names": names, "pids": info})
+
+
+def judge_real(case, results):
+    v = core.Verdict()
+    res, scn = results[0], case.scns[0]
+    cr = core.classify_crash(res) if res.crashed else core.exception_outcome(res)
+    if cr:
+        v.bad("crash:" + cr[0], cr[1], cr[2])
+        return v
+    m = case.meta
+    alive = {r: set(p) for r, p in m["pids"].items()}
+    _, ticks = engine.split_ticks(res.events)
+    special = attempts = 0
+    for ti, evs in enumerate(ticks):
+        cur = None  # instance cgroup whose chain is running
+        seen = []
+        for e in evs:
+            k = e.get("ev")
+            if k == "plugin" and e["m"] == "run":
+                if e["id"] == "pre":
+                    cur = e.get("rcg")
+                    seen.append(cur)
+                    hit = {"victims": [], "kills": []}
+                elif e["id"] == "post" and cur is not None:
+                    # the kill action returned CONTINUE: it found nothing to kill in its target
+                    if alive.get(cur):
+                        v.bad("action-missed-its-cgroup", "glob-metachar-name" if set(cur) & set("\\*?[]{}") else "",
+                              "tick %d instance %s: the kill action found nothing to kill although %s has live processes %s (it was initialised with cgroup=%s, which is read as a pattern)" % (
+                                  ti, cur, cur, sorted(alive[cur]), cur))
+                    cur = None
+                continue
+            if k == "kill" and e["ret"] == 0:
+                for r, ps in alive.items():
+                    ps.discard(e["pid"])
+            if cur is None:
+                continue  # (a chain resumed after an async pause has no scripted action in front of the kill: not attributed)
+            if k == "setxattr" and e["name"].endswith(".oomd_kill_uuid") and e["name"].startswith("trusted."):
+                vic = e["path"][4:] if e["path"].startswith("/cg/") else e["path"]
+                attempts += 1
+                if set(cur) & set("\\*?[]{}"):
+                    special += 1
+                if vic != cur:
+                    v.bad("action-on-other-cgroup", "glob-metachar-name" if set(cur) & set("\\*?[]{}") else "",
+                          "tick %d instance %s: its kill action marked %s as victim" % (ti, cur, vic))
+            elif k == "kill" and e["ret"] == 0:
+                owner = next((r for r, ps in m["pids"].items() if e["pid"] in ps), None)
+                if owner != cur:
+                    v.bad("action-on-other-cgroup", "signal", "tick %d instance %s: its kill action signalled pid %d of %s" % (ti, cur, e["pid"], owner))
+        want = sorted("wl/" + n for n in m["names"])
+        # (later ticks: an instance that killed sits in the kill plugin's own post_action_delay, no chain is expected)
+        if ti == 0 and sorted(seen) != want:
+            v.bad("live-set", "real", "tick %d: chains ran for %s, matching cgroups %s" % (ti, sorted(seen), want))
+    v.count("real_action_cases")
+    v.count("real_attempts", attempts)
+    v.count("real_attempts_on_glob_metachar_names", special)
+    v.nontrivial = attempts > 0
+    v.sig = core.scn_hash(scn)
+    return v
+
+
 def live_sets(scn):
     out = {}
     ws = model.worlds_per_tick(scn)
@@ -107,7 +211,17 @@ def live_sets(scn):
     return out, ws
 
 
+_cases_scripted = cases
+
+
+def cases(seed, tier):
+    yield from _cases_scripted(seed, tier)
+    yield from real_cases(seed, 300 if tier == "quick" else 2500)
+
+
 def judge(case, results):
+    if case.meta.get("real"):
+        return judge_real(case, results)
     scn = case.scns[0]
     res = results[0]
     v = core.Verdict()
@@ -136,5 +250,7 @@ def judge(case, results):
 
 def sample(case, v):
     s = case.scns[0]
+    if case.meta.get("real"):
+        return {"case": case.id, "real_kill_action": case.meta["plugin"], "cgroups": case.meta["names"], "observed": v.stats}
     return {"case": case.id, "ruleset_cgroup": case.meta, "initial_cgroups": sorted(s["cgroups"].keys()),
             "ops_per_tick": [[(o["op"], o["cg"]) for o in t.get("ops", [])] for t in s["ticks"]], "observed": v.stats}
